@@ -165,9 +165,9 @@ func (tr *c07tracer) handler() *verifhook.Handler {
 	return &verifhook.Handler{Point: func(name string, _ any) {
 		// forced interleavings: park one writer at its first marker until the other has closed its file
 		switch {
-		case tr.mode == "ods-first" && name == "q4.created":
+		case tr.mode == "ods-first" && name == "q4.before-create":
 			<-tr.odsDone
-		case tr.mode == "q4-first" && name == "ods.created":
+		case tr.mode == "q4-first" && name == "ods.before-create":
 			<-tr.q4Done
 		}
 		tr.mu.Lock()
@@ -741,6 +741,7 @@ func c07strace(run *vkit.Run, base string) {
 	markersSince := 0
 	var gaps []string
 	muts, marks := 0, 0
+	concurrentPairs := 0
 	phase := ""
 	for _, line := range strings.Split(string(data), "\n") {
 		if i := strings.Index(line, " "); i > 0 {
@@ -798,7 +799,15 @@ func c07strace(run *vkit.Run, base string) {
 		}
 		muts++
 		if lastMut != "" && markersSince == 0 {
-			gaps = append(gaps, fmt.Sprintf("[%s] %s  →  %s", phase, lastMut, desc))
+			// the ODS and the Q4 writer of CreateODSQ4 run concurrently: adjacency of one effect on each file is an
+			// interleaving (both orders are enumerated by the forced ods-first / q4-first modes), not a missing marker
+			a, b := lastMut, desc
+			conc := (strings.HasSuffix(a, ".q4") && strings.HasSuffix(b, ".ods")) || (strings.HasSuffix(a, ".ods") && strings.HasSuffix(b, ".q4"))
+			if conc && (phase == "put-odsq4" || phase == "putq4-again") {
+				concurrentPairs++
+			} else {
+				gaps = append(gaps, fmt.Sprintf("[%s] %s  →  %s", phase, lastMut, desc))
+			}
 		}
 		lastMut, markersSince = desc, 0
 	}
@@ -808,6 +817,7 @@ func c07strace(run *vkit.Run, base string) {
 	// outside the traced phases.
 	run.Extra("strace_marker_gaps", gaps)
 	run.Count("strace/gaps", len(gaps))
+	run.Count("strace/concurrent_writer_adjacencies", concurrentPairs)
 	if muts < 10 || marks < 100 {
 		run.Inconclusive(fmt.Sprintf("strace validation saw too little (%d mutating syscalls, %d markers)", muts, marks))
 	}
